@@ -466,6 +466,11 @@ def run_check(pid, tier, verif_seed, budget_s=None, max_runs=None, workers=None)
         min_v = vio.as_dict() if vio is not None else violation["v"]
         if vio is None:
             minimised = violation["choices"]
+        if hasattr(mod, "refine"):
+            try:
+                min_v["refined"] = jsonable(mod.refine(minimised))
+            except Exception:  # noqa
+                min_v["refined"] = {"error": traceback.format_exc()[-800:]}
         replay_path = write_replay(pid, tier, verif_seed, violation, minimised, min_v)
         print(json.dumps(min_v, default=str)[:3000])
         print(f"VIOLATION property={pid} replay={replay_path}")
